@@ -61,6 +61,9 @@ func (m *mptForBytes) Prove(k []byte, proof [][]byte) ([]byte, error) {
 	if err != nil {
 		return nil, err
 	}
+	if obj == nil {
+		return nil, nil
+	}
 	return obj.Bytes(), nil
 }
 
